@@ -13,7 +13,8 @@ from . import regworld as rw
 from . import seams
 from .core import EventLog, HarnessError, make_rng, wchoice
 
-CUSTOM = ["foo", "bar", "code_length", "baz", "kfoo", "code_mass"]
+CUSTOM = ["foo", "bar", "code_length", "baz", "kfoo", "code_mass", "year", "meter"]  # the last two: alternative spellings
+# the parser maps to yr / m before it asks the registry
 DEFSYMS = ["m", "s", "g", "ft", "K", "degC", "erg", "G", "dB", "degree", "pc", "Msun", "C", "T"]
 ALIASES = {"m": "meter", "s": "second", "g": "gram", "ft": "foot", "K": "kelvin", "pc": "parsec"}
 DIMS = ["length", "mass", "time", "temperature", "dimensionless", "velocity", "energy", "angle"]
@@ -191,7 +192,14 @@ class Gen:
         if s is None:
             sym = sym or self.pick_sym(w, ni, present=True if r.random() < 0.85 else None)
             s = self.spell(sym)
-        kind = wchoice(r, [("unit", 4), ("quantity", 4), ("getitem", 1.2), ("contains", 1), ("to", 2)])
+        kind = wchoice(r, [("unit", 4), ("quantity", 4), ("getitem", 1.2), ("contains", 1), ("to", 2), ("list_same", 0.5),
+                           ("regview", 0.4)])
+        if kind == "list_same":
+            return {"k": "list_same", "node": ni, "h": r.randrange(2), "s": s}
+        if kind == "regview":
+            names = sorted(set(self.syms + [r.choice(PREF) + x for x in self.syms] + self.defsyms[:2]))
+            return {"k": "regview", "node": ni, "h": r.randrange(2), "what": r.choice(["keys", "prefixable", "contains"]),
+                    "names": names}
         if kind in ("getitem", "contains") and not re.fullmatch(r"[^\W\d]\w*", s, re.UNICODE):
             kind = "unit"
         if kind == "to" and not w.heap:
@@ -201,7 +209,7 @@ class Gen:
         if kind == "quantity":
             v = r.choice(VALUES) if r.random() < 0.7 else [r.choice(VALUES), r.choice(VALUES)]
             return {"k": "quantity", "node": ni, "h": r.randrange(2), "v": v, "s": s,
-                    "route": r.choice(["ctor", "array", "mul"]), "store": self.store()}
+                    "route": r.choice(["ctor", "array", "mul", "from_string", "array_unitstr"]), "store": self.store()}
         if kind == "to":
             return {"k": "to", "x": self.slot(w), "s": s,
                     "how": r.choice(["to", "in_units", "to_value", "convert"]), "store": self.store()}
@@ -541,6 +549,10 @@ class Gen:
             yield {"k": "binop", "f": f, "x": ia, "y": ib, "store": self.store()}
         yield {"k": "quantity", "node": 0, "h": 0, "v": 1.0, "s": r.choice(["delta_degC", "delta_degF", "dimensionless"]),
                "route": "mul", "store": False}
+        # an array built from quantities of the exported namespace, bound to the custom registry
+        yield {"k": "arrlist", "node": ni, "h": 0, "names": r.sample(["km", "m", "cm", "mile", "pc"], 2), "store": self.store()}
+        yield {"k": "quantity", "node": 0, "h": 0, "v": 5.0, "s": "km", "route": "mul", "store": True}
+        yield {"k": "to", "x": w.last_stored, "s": "m", "how": "to", "store": False}
 
     def s_default_copy(self, w):
         """A private copy of the DEFAULT registry (deep copy / unpickled / JSON): edits and definitions made
